@@ -431,7 +431,7 @@ def setDefaultFieldL (f : Str) : List (Entry CLeaf) → List (Entry CLeaf)
 end
 
 /-- the first branch of `literal` without the term group: `opt(field_name)` then a leaf -/
-def plainLiteral (s : Str) : R (Ast CLeaf) :=
+def plainLiteral (guard : Bool) (s : Str) : R (Ast CLeaf) :=
   let (f, s1) : Option Str × Str :=
     match fieldName s with
     | some (n, r) => (some n, r)
@@ -457,7 +457,7 @@ def plainLiteral (s : Str) : R (Ast CLeaf) :=
     | none =>
       -- an `exists` leaf without a field name: `set_field(None)` hits its `expect`, unless
       -- `literal` refuses the leaf first (read from the source by the extractor)
-      if Gen.GRAMMAR_LITERAL_GUARDS_FIELDLESS_EXISTS = 1 then .fail else .panic
+      if guard then .fail else .panic
 
 /-! ## boosts -/
 
@@ -525,16 +525,16 @@ def allAhead (s : Str) : Bool :=
 
 mutual
 /-- mirrors: query_grammar.rs::ast -/
-def pAst : Nat → Str → R (Ast CLeaf)
+def pAst (g : Bool) : Nat → Str → R (Ast CLeaf)
   | 0, _ => .fail
   | fuel + 1, s =>
-    (pOccurLeaf fuel (skip0 s)).bind fun first rest =>
+    (pOccurLeaf g fuel (skip0 s)).bind fun first rest =>
       let single : R (Ast CLeaf) :=
         .ok (if first.1 = some .mustNot then first.2.unary .mustNot else first.2) (skip0 rest)
       match skip1 rest with
       | none => single
       | some r1 =>
-        match pOperands fuel r1 with
+        match pOperands g fuel r1 with
         | .panic => .panic
         | .fail => single
         | .ok [] _ => single
@@ -543,35 +543,35 @@ def pAst : Nat → Str → R (Ast CLeaf)
           | .ok t => .ok t (skip0 r2)
           | .error _ => .fail
 /-- `many1(operand_leaf)`: the elements parsed (empty = the first one failed) -/
-def pOperands : Nat → Str → R (List (Item CLeaf))
+def pOperands (g : Bool) : Nat → Str → R (List (Item CLeaf))
   | 0, s => .ok [] s
   | fuel + 1, s =>
     let (op, s1) := binaryOperand s
-    match pOccurLeaf fuel (skip0 s1) with
+    match pOccurLeaf g fuel (skip0 s1) with
     | .panic => .panic
     | .fail => .ok [] s
     | .ok (occ, a) r =>
       let r' := skip0 r
-      match pOperands fuel r' with
+      match pOperands g fuel r' with
       | .panic => .panic
       | .fail => .ok [(op, occ, a)] r'
       | .ok more r'' => .ok ((op, occ, a) :: more) r''
 /-- mirrors: query_grammar.rs::occur_leaf (with `boosted_leaf` inlined) -/
-def pOccurLeaf : Nat → Str → R (Option Occur × Ast CLeaf)
+def pOccurLeaf (g : Bool) : Nat → Str → R (Option Occur × Ast CLeaf)
   | 0, _ => .fail
   | fuel + 1, s =>
     let (occ, s1) := occurSymbol s
-    (pLeaf fuel s1).bind fun a r =>
+    (pLeaf g fuel s1).bind fun a r =>
       let (b, r') := boost r
       .ok (occ, applyBoost a b) r'
 /-- mirrors: query_grammar.rs::leaf and ::literal / ::term_group -/
-def pLeaf : Nat → Str → R (Ast CLeaf)
+def pLeaf (g : Bool) : Nat → Str → R (Ast CLeaf)
   | 0, _ => .fail
   | fuel + 1, s =>
     let group : R (Ast CLeaf) :=
       match s with
       | '(' :: r =>
-        (pAst fuel r).bind fun a r1 =>
+        (pAst g fuel r).bind fun a r1 =>
           match r1 with
           | ')' :: r2 => .ok a r2
           | _ => .fail
@@ -586,17 +586,17 @@ def pLeaf : Nat → Str → R (Ast CLeaf)
           match tag ['N', 'O', 'T'] s with
           | some r =>
             match skip1 r with
-            | some r1 => (pLeaf fuel r1).map fun a => a.unary .mustNot
+            | some r1 => (pLeaf g fuel r1).map fun a => a.unary .mustNot
             | none => .fail
           | none => .fail
         neg.orElse fun _ =>
-          (plainLiteral s).orElse fun _ =>
+          (plainLiteral g s).orElse fun _ =>
             -- term_group: field_name ws0 '(' ws0 ast ')'
             match fieldName s with
             | some (f, r) =>
               match skip0 r with
               | '(' :: r1 =>
-                (pAst fuel (skip0 r1)).bind fun a r2 =>
+                (pAst g fuel (skip0 r1)).bind fun a r2 =>
                   match r2 with
                   | ')' :: r3 => .ok (setDefaultField f a) r3
                   | _ => .fail
@@ -611,15 +611,19 @@ inductive Outcome where
   | panic
   deriving Repr, Inhabited
 
-/-- mirrors: query_grammar.rs::parse_to_ast + lib.rs::parse_query. The fuel exceeds what an input
-    of this length can use (each nesting level costs four fuel steps and consumes a character,
-    each operand costs one). -/
-def parseStrict (s : Str) : Outcome :=
+/-- mirrors: query_grammar.rs::parse_to_ast + lib.rs::parse_query. `guard` says whether `literal`
+    refuses an exists leaf without a field name. The fuel exceeds what an input of this length can
+    use (each nesting level costs three fuel steps and consumes a character, each operand one). -/
+def parseStrictWith (guard : Bool) (s : Str) : Outcome :=
   let s0 := skip0 s
-  match pAst (8 * s.length + 16) s0 with
+  match pAst guard (8 * s.length + 16) s0 with
   | .panic => .panic
   | .ok t [] => .tree (rewrite t)
   | .ok _ (_ :: _) => .error
   | .fail => if s0.isEmpty then .tree (rewrite Ast.emptyQuery) else .error
+
+/-- the strict parser of the source at hand (the guard is read from the source by the extractor) -/
+def parseStrict (s : Str) : Outcome :=
+  parseStrictWith (Gen.GRAMMAR_LITERAL_GUARDS_FIELDLESS_EXISTS == 1) s
 
 end TantivyModel.Grammar.Chars
